@@ -177,9 +177,25 @@ static const char *innermost_fn (struct fiber *f, char *buf, size_t n) {
 /* VERIF_IGNORE=O-mem,...: oracles that belong to another property's check and are switched off in this run, so that the
    execution goes on to what the fault does to this property (used only in the exploration that follows a divergence) */
 static const char *ignored_oracles;
+/* VERIF_SOFT=O-hb,...: oracles of another property that are only COUNTED in this run (the behaviour goes on and stays judged by this
+   property's oracles); the first message is kept and reported once per process ("SOFT ..." line, rt_report_soft) */
+static const char *soft_oracles;
+static long soft_hits; static char soft_first[300];
+long rt_soft_hits (void) { return soft_hits; }
+void rt_report_soft (FILE *out) { if (soft_hits) fprintf (out, "SOFT %ld %s\n", soft_hits, soft_first); }
+static int in_list (const char *list, const char *oracle) {
+	const char *q; size_t n = strlen (oracle);
+	if (!list) return 0;
+	q = strstr (list, oracle);
+	return q && (q == list || q[-1] == ',') && (q[n] == 0 || q[n] == ',');
+}
 void rt_violation (const char *oracle, const char *fmt, ...) {
 	va_list ap;
 	if (G->has_viol) return;
+	if (in_list (soft_oracles, oracle)) {
+		if (!soft_hits++) { int k = snprintf (soft_first, sizeof soft_first, "%s|", oracle); va_start (ap, fmt); vsnprintf (soft_first + k, sizeof soft_first - (size_t) k, fmt, ap); va_end (ap); }
+		return;
+	}
 	if (ignored_oracles) {
 		const char *q = strstr (ignored_oracles, oracle); size_t n = strlen (oracle);
 		if (q && (q == ignored_oracles || q[-1] == ',') && (q[n] == 0 || q[n] == ',')) return;
@@ -839,6 +855,7 @@ void rt_init (void) {
 	G->arena = mmap (0, ARENA_SIZE + 4096, PROT_READ | PROT_WRITE, MAP_PRIVATE | MAP_ANONYMOUS, -1, 0);
 	G->now = RT_T0;
 	ignored_oracles = getenv ("VERIF_IGNORE");
+	soft_oracles = getenv ("VERIF_SOFT");
 	rt_plain_steps = getenv ("VERIF_PLAIN") != NULL;
 	load_symbols ();
 	G->altstack = mmap (0, 65536, PROT_READ | PROT_WRITE, MAP_PRIVATE | MAP_ANONYMOUS, -1, 0);
